@@ -14,6 +14,10 @@ DAY = 86400
 PASSWORD = b"P@ssw0rd"
 
 
+import functools
+
+
+@functools.lru_cache(maxsize=4096)
 def key_of(label):
     d = int.from_bytes(hashlib.sha256(b"verif-key/" + label.encode()).digest(), "big") % (M.N - 2) + 1
     return d, M.pub_of(d)
